@@ -336,6 +336,11 @@ func runPhase(bin, scratch, prop, tier string, seed uint64, ph phase, known stri
 	if workers > 16 {
 		workers = 16
 	}
+	// VERIF_WORKERS lowers the worker count (background runs beside other work);
+	// it never changes which run index gets which seed, only how many run at once.
+	if n, err := strconv.Atoi(os.Getenv("VERIF_WORKERS")); err == nil && n >= 1 && n < workers {
+		workers = n
+	}
 	if ph.runs < workers {
 		workers = ph.runs
 	}
